@@ -23,9 +23,9 @@ Cfgs ==
                               ks \in {<<"direct", "pass", "direct">>, <<"direct", "buffer", "pass">>,
                                       <<"buffer", "buffer", "direct">>, <<"pass", "shared", "direct">>, <<"pass", "shared", "shared">>},
                               l \in {None, 15}}
-    [] CfgSet = "masked" -> {[kinds |-> ks, limit |-> l, size |-> 16, pay |-> "masked", static |-> FALSE] :
+    [] CfgSet = "masked" -> {[kinds |-> ks, limit |-> l, size |-> 16, pay |-> py, static |-> FALSE] :
                               ks \in {<<"direct">>, <<"direct", "pass">>, <<"direct", "buffer">>},
-                              l \in {None, 0, 16, 31, 32}}
+                              l \in {None, 0, 16, 31, 32}, py \in {"masked", "maskedempty"}}
     [] CfgSet = "static" -> {[kinds |-> ks, limit |-> l, size |-> 8, pay |-> "scalar", static |-> TRUE] :
                               ks \in {<<"direct">>, <<"direct", "pass">>, <<"direct", "direct", "pass">>},
                               l \in {None, 0, 8}}
